@@ -10,18 +10,9 @@ import time
 CACHE_TARGET = ".cache/replay-target"
 
 
-_LOCKS = {}
-
-
 def scratch_copy(repo, tag):
     d = "/tmp/verif-scratch-%s" % tag
-    # the path is fixed (cargo's cache is keyed by it); concurrent checks of the same property take turns
-    global _LOCKS
-    import fcntl
-    if d not in _LOCKS:
-        lk = open(d + ".lock", "w")
-        fcntl.flock(lk, fcntl.LOCK_EX)
-        _LOCKS[d] = lk   # released when the check process exits
+    # the path is fixed per property; concurrent checks of the same property take turns (lock in driver.py)
     shutil.rmtree(d, ignore_errors=True)
     subprocess.run(["rsync", "-a", "--exclude", "target", "--exclude", ".git", repo.rstrip("/") + "/", d + "/"], check=True)
     return d
@@ -69,6 +60,12 @@ def run_module(pid, P, repo, verif, mode, seed, tier, inp=None, timeout=None):
         env = cargo_env(verif, dict(VERIF_REPLAY_MODE=mode, VERIF_REPLAY_OUT=outp, VERIF_REPLAY_IN=inp_path,
                                     VERIF_SEED=str(seed), VERIF_TIER=tier), P)
         cmd = ["cargo", "test", "--offline", "--lib", "--release", "verif_replay::", "--", "--nocapture", "--test-threads=1"]
+        # the cargo target directory is shared by all properties (one build of the dependencies) and cargo names the test binary
+        # independently of the scratch path: build + run is therefore one critical section per target directory
+        import fcntl
+        os.makedirs(os.path.dirname(env["CARGO_TARGET_DIR"]), exist_ok=True)
+        tlock = open(env["CARGO_TARGET_DIR"].rstrip("/") + ".lock", "w")
+        fcntl.flock(tlock, fcntl.LOCK_EX)
         t0 = time.time()
         try:
             pr = subprocess.Popen(cmd, cwd=d, env=env, stdout=subprocess.PIPE, stderr=subprocess.PIPE, text=True, start_new_session=True)
@@ -88,6 +85,9 @@ def run_module(pid, P, repo, verif, mode, seed, tier, inp=None, timeout=None):
         except OSError as e:
             tail = str(e)
             rc = -1
+        finally:
+            fcntl.flock(tlock, fcntl.LOCK_UN)
+            tlock.close()
         res = dict(found=False, cmd=" ".join(cmd) + " (scratch copy of %s + replay/%s)" % (repo, mod), wall_s=round(time.time() - t0, 1), rc=rc)
         if os.path.exists(outp):
             try:
